@@ -1,12 +1,20 @@
 """C09 — bit-packed sub-fields are exact and isolated.
 Model: Model/SubField.v over the masks of Gen/GenDims.v and the translated least_significant_bit_set.
 Correspondence: exhaustive per element (every format x sub-field x 256 prior bytes x a value sweep) through real
-PackedPointRecords, plus random index expressions. Search: the property on the implementation."""
+PackedPointRecords, plus random index expressions, plus HISTORIES (Model/SubFieldRec.v, own driver lasmodel_c09):
+sessions of operations on one record reached through every public path (PackedPointRecord / ScaleAwarePointRecord /
+LasData; rec[name], rec.name, old laspy names, sub-records, views derived by slicing views, whole-dimension
+assignment with growth / broadcast, copy_fields_from onto the current content).
+Search: the property on the implementation (a Python statement of the expected bytes, no model involved)."""
+import json
+
 import numpy as np
 
 from harness import common
 
-ASSUMPTIONS = ["numpy resolves an index expression (slice, mask, index list, integer) to positions; the model receives the positions"]
+DRIVER = "c09"
+ASSUMPTIONS = ["numpy resolves an index expression (slice, mask, index list, integer) to positions; the model receives the positions",
+               "a slice of a numpy array (and of a SubFieldView / point record built on it) is a view: the harness resolves a chain of slices to positions with Python's range(n)[slice], the model composes them"]
 
 
 def sub_fields():
@@ -29,9 +37,16 @@ def values(ctx):
 def fresh_record(fmt, rng, n=256):
     import laspy
     rec = laspy.PackedPointRecord.zeros(n, laspy.PointFormat(fmt))
-    raw = np.frombuffer(bytes(rng.getrandbits(8) for _ in range(n * rec.array.dtype.itemsize)), dtype=np.uint8).copy()
-    rec.array = raw.view(rec.array.dtype).copy()
+    rec.array = rand_array(rng, rec.array.dtype, n)
     return rec
+
+
+def rand_bytes(rng, k):
+    return rng.getrandbits(8 * k).to_bytes(k, "little") if k else b""
+
+
+def rand_array(rng, dtype, n):
+    return np.frombuffer(rand_bytes(rng, n * dtype.itemsize), dtype=np.uint8).copy().view(dtype).copy()
 
 
 def impl_column(fmt, name, composed, v, rng):
@@ -56,7 +71,17 @@ def correspond(ctx):
                          "(thorough: -300..300) assigned through rec[name][:] = v on real PackedPointRecords with random other "
                          "dimensions; random index expressions (slices with steps, boolean masks, index lists with duplicates, single "
                          "index, numpy-typed scalars and arrays). non-trivial = in-range value on a prior byte whose sibling bits are "
-                         "not all zero, or an out-of-range value; distinct by (mask, prior byte, value)")
+                         "not all zero, or an out-of-range value; distinct by (mask, prior byte, value). "
+                         "HISTORIES: sessions of 1-4 operations on one record of 0-8 points with random bytes, held by a PackedPointRecord, a "
+                         "ScaleAwarePointRecord or a LasData and reached by rec[name] / rec.name / old laspy names / las.points / a sliced "
+                         "sub-record: view assignments through a chain of 0-3 slices (one-element, whole, empty, reversed, strided) and a "
+                         "final key (all, ..., slice, mask, index list/array, int, numpy int, out-of-bounds index) with scalar / list / tuple / "
+                         "typed-array values in or out of range; whole-dimension assignments rec[name] = seq (same length, LONGER = the record "
+                         "grows, one element = broadcast, shorter = refused, empty) through setitem / setattr / list-of-names; "
+                         "copy_fields_from a random record of the same or the other format family (same length, longer, shorter, one point, "
+                         "empty) onto the current content; plus the chunk-by-chunk fill of every sub-field and repeated copies into a "
+                         "preallocated record. After every operation the whole record is compared with the model's history and with the "
+                         "property (expected bytes, length, untouched other dimensions, zero appended points)")
     sfs = sub_fields()
     vals = values(ctx)
     masks = sorted({m for _, _, _, m in sfs})
@@ -167,6 +192,656 @@ def correspond(ctx):
             ok = im[0] == "err" and "err " + im[1] == mo and others
         if not ok:
             dis.append({"kind": f"index expression {desc[2]}", "input": {"desc": desc, "cmd": cmd}, "model": mo, "impl": str(im)})
+    dis += correspond_sessions(ctx)
+    return dis
+
+
+# =====================================================================================================================
+# histories: sessions of operations on one record, through every public path
+# =====================================================================================================================
+OLD_NAMES = {"return_number": "return_num", "number_of_returns": "num_returns",
+             "scan_direction_flag": "scan_dir_flag", "edge_of_flight_line": "edge_flight_line"}
+HOSTS = ["packed", "scaled", "las"]
+
+
+def fmt_table(fmt):
+    """[(sub-field name, composed dimension, mask)] in the order of the format's dimensions, [composed names]"""
+    import laspy.point.dims as dims
+    tab = []
+    for composed, subs in dims.COMPOSED_FIELDS[fmt].items():
+        for sf in subs:
+            tab.append((sf.name, composed, int(sf.mask)))
+    cols = []
+    for _, c, _ in tab:
+        if c not in cols:
+            cols.append(c)
+    return tab, cols
+
+
+def lsb_of(m):
+    return (m & -m).bit_length() - 1
+
+
+class Host:
+    """a point record holding given raw bytes, reached the way a user reaches it"""
+
+    def __init__(self, kind, fmt, raw):
+        import laspy
+        self.kind, self.fmt = kind, fmt
+        pf = laspy.PointFormat(fmt)
+        arr = np.frombuffer(raw, dtype=np.uint8).copy().view(pf.dtype()).copy()
+        if kind == "packed":
+            self.obj = self.rec = laspy.PackedPointRecord(arr, pf)
+        elif kind == "scaled":
+            self.obj = self.rec = laspy.ScaleAwarePointRecord(arr, pf, [1.0, 1.0, 1.0], [0.0, 0.0, 0.0])
+        else:
+            las = laspy.create(point_format=fmt)
+            las.points = laspy.ScaleAwarePointRecord(arr, las.header.point_format, las.header.scales, las.header.offsets)
+            self.obj = las
+            self.rec = None
+
+    def record(self):
+        return self.obj.points if self.kind == "las" else self.rec
+
+    def raw(self):
+        return self.record().array.tobytes()
+
+    def n(self):
+        return len(self.record().array)
+
+
+def mk_key(k):
+    t = k["k"]
+    if t == "all":
+        return slice(None)
+    if t == "ellipsis":
+        return Ellipsis
+    if t == "slice":
+        return slice(*k["v"])
+    if t == "mask":
+        return np.array(k["v"], dtype=bool)
+    if t == "list":
+        return list(k["v"])
+    if t == "arr":
+        return np.array(k["v"], dtype=np.int64)
+    if t == "npint":
+        return np.int64(k["v"])
+    return int(k["v"])
+
+
+def mk_value(v):
+    t = v["t"]
+    if t == "int":
+        return int(v["v"])
+    if t == "bool":
+        return bool(v["v"])
+    if t == "np":
+        return np.dtype(v["dtype"]).type(v["v"])
+    if t == "list":
+        return [int(x) for x in v["v"]]
+    if t == "tuple":
+        return tuple(int(x) for x in v["v"])
+    return np.array(v["v"], dtype=v["dtype"])
+
+
+def value_list(v):
+    """the assigned values as python ints: (is_scalar, [ints])"""
+    if v["t"] in ("int", "bool", "np"):
+        return True, [int(v["v"])]
+    return False, [int(x) for x in v["v"]]
+
+
+def apply_op(host, op):
+    """run one operation on the implementation; returns 'ok' or 'err:<kind>'"""
+    import laspy
+    try:
+        if op["op"] == "view":
+            name = op["field"]
+            obj = host.obj
+            path = op["path"]
+            if path.startswith("points_"):
+                obj, path = host.record(), path[len("points_"):]
+            if "subrec" in op:
+                obj = host.record()[slice(*op["subrec"])]
+            if path == "item":
+                view = obj[name]
+            elif path == "attr":
+                view = getattr(obj, name)
+            elif path == "old":
+                view = obj[OLD_NAMES[name]]
+            else:
+                view = getattr(obj, OLD_NAMES[name])
+            for s in op["chain"]:
+                view = view[slice(*s)]
+            view[mk_key(op["key"])] = mk_value(op["value"])
+        elif op["op"] == "seq":
+            name, path, value = op["field"], op["path"], mk_value(op["value"])
+            obj = host.obj
+            if path.startswith("points_"):
+                obj, path = host.record(), path[len("points_"):]
+            if path == "setitem":
+                obj[name] = value
+            elif path == "setattr":
+                setattr(obj, name, value)
+            elif path == "names":
+                obj[[name]] = value
+            elif path == "old":
+                obj[OLD_NAMES[name]] = value
+            else:
+                setattr(obj, OLD_NAMES[name], value)
+        else:
+            spf = laspy.PointFormat(op["sfmt"])
+            src = laspy.PackedPointRecord(np.frombuffer(bytes.fromhex(op["src"]), dtype=np.uint8).copy().view(spf.dtype()).copy(), spf)
+            host.record().copy_fields_from(src)
+        return "ok"
+    except Exception as ex:
+        return "err:" + common.exc_kind(ex)
+
+
+def resolve_key(k, L):
+    """positions (in a view of length L) a key addresses, in numpy's order; None = IndexError"""
+    t = k["k"]
+    if t in ("all", "ellipsis"):
+        return list(range(L))
+    if t == "slice":
+        return list(range(L))[slice(*k["v"])]
+    if t == "mask":
+        return [i for i, b in enumerate(k["v"]) if b]
+    idx = k["v"] if t in ("list", "arr") else [k["v"]]
+    out = []
+    for i in idx:
+        if not -L <= i < L:
+            return None
+        out.append(i % L)
+    return out
+
+
+def view_positions(op, n):
+    """base positions of the (derived) view the assignment goes through, and the chain as index lists"""
+    pos, chain = list(range(n)), []
+    for s in ([op["subrec"]] if "subrec" in op else []) + list(op["chain"]):
+        idx = list(range(len(pos)))[slice(*s)]
+        chain.append(idx)
+        pos = [pos[i] for i in idx]
+    return pos, chain
+
+
+def unpack_state(fmt, raw):
+    import laspy
+    dt = laspy.PointFormat(fmt).dtype()
+    arr = np.frombuffer(raw, dtype=np.uint8).view(dt)
+    tab, cols = fmt_table(fmt)
+    return arr, {c: [int(b) for b in arr[c]] for c in cols}
+
+
+def expect_op(fmt, raw, op):
+    """THE PROPERTY, stated on bytes: (status, {composed: bytes} expected after the operation, new length).
+    Python arithmetic only; neither the Coq model nor laspy's sub-field code is used."""
+    import laspy
+    arr, cols = unpack_state(fmt, raw)
+    n = len(arr)
+    tab, _ = fmt_table(fmt)
+    by_name = {nm: (c, m) for nm, c, m in tab}
+
+    def put(col, b, m, v):
+        col[b] = (col[b] & ~m & 0xFF) | (v << lsb_of(m))
+
+    def assign_seq(cols, n, name, vs):
+        """rec[name] = vs -> (status, cols, n)"""
+        c, m = by_name[name]
+        maxv = m >> lsb_of(m)
+        if not vs:
+            return "ok", cols, n
+        if any(v > maxv or v < 0 for v in vs):
+            return "err:EOverflow", cols, n                      # refused: nothing modified, not grown
+        k = max(n, len(vs))
+        if len(vs) != k and len(vs) != 1:
+            return "err:EValue", cols, n                         # shapes differ: refused, nothing modified
+        new = {cc: list(bs) + [0] * (k - n) for cc, bs in cols.items()}      # appended points are zero
+        for i in range(k):
+            put(new[c], i, m, vs[i] if len(vs) == k else vs[0])
+        return "ok", new, k
+
+    if op["op"] == "view":
+        c, m = by_name[op["field"]]
+        maxv = m >> lsb_of(m)
+        pos, _ = view_positions(op, n)
+        scalar, vs = value_list(op["value"])
+        if any(v > maxv or v < 0 for v in vs):
+            return "err:EOverflow", cols, n
+        idx = resolve_key(op["key"], len(pos))
+        if idx is None:
+            return "err:EIndex", cols, n
+        new = {cc: list(bs) for cc, bs in cols.items()}
+        for j, i in enumerate(idx):
+            put(new[c], pos[i], m, vs[0] if scalar or len(vs) == 1 else vs[j])
+        return "ok", new, n
+    if op["op"] == "seq":
+        _, vs = value_list(op["value"])
+        return assign_seq(cols, n, op["field"], vs)
+    # copy_fields_from: one whole-dimension assignment per sub-field name of the destination, in its order
+    sarr, scols = unpack_state(op["sfmt"], bytes.fromhex(op["src"]))
+    stab, _ = fmt_table(op["sfmt"])
+    sby = {nm: (c, m) for nm, c, m in stab}
+    status = "ok"
+    if len(sarr) > n:
+        # X, Y, Z ... precede the sub-fields in every format and are always copied: the record has already grown
+        cols = {cc: list(bs) + [0] * (len(sarr) - n) for cc, bs in cols.items()}
+        n = len(sarr)
+    for name, _, _ in tab:
+        if name in sby:
+            sc, sm = sby[name]
+            vs = [(b & sm) >> lsb_of(sm) for b in scols[sc]]
+        elif name in (sarr.dtype.names or ()):
+            vs = [int(x) for x in sarr[name]]
+        else:
+            continue                                             # the source lacks it
+        st, cols, n = assign_seq(cols, n, name, vs)
+        if st == "err:EOverflow":
+            status = st
+            break                                                # OverflowError leaves copy_fields_from
+    return status, cols, n
+
+
+def check_op(fmt, raw_before, op, status, raw_after):
+    """compare what the implementation did with the property; returns None or a description of the violation"""
+    import laspy
+    exp_status, exp_cols, exp_n = expect_op(fmt, raw_before, op)
+    before, _ = unpack_state(fmt, raw_before)
+    after, got_cols = unpack_state(fmt, raw_after)
+    tab, cols = fmt_table(fmt)
+    if status != exp_status:
+        return f"outcome {status}, expected {exp_status}"
+    if len(after) != exp_n:
+        return f"the record has {len(after)} points afterwards, expected {exp_n}" + (" (refused assignment)" if status != "ok" else "")
+    for c in cols:
+        if got_cols[c] != exp_cols[c]:
+            i = [a != b for a, b in zip(got_cols[c], exp_cols[c])].index(True)
+            return (f"{c}[{i}] = {got_cols[c][i]:#04x}, expected {exp_cols[c][i]:#04x}"
+                    + (" although the assignment was refused" if status != "ok" else "")
+                    + (" (appended point)" if i >= len(before) else ""))
+    if op["op"] != "copy":
+        for f in before.dtype.names:
+            if f in cols:
+                continue
+            if after[f][:len(before)].tobytes() != before[f].tobytes():
+                return f"dimension {f} of the existing points changed"
+            if np.any(after[f][len(before):] != 0):
+                return f"dimension {f} of the appended points is not zero"
+    # every sub-field reads back what its bits say
+    return None
+
+
+def check_reads(host, fmt):
+    """np.array(rec[name]) of every sub-field agrees with the packed bytes"""
+    rec = host.record()
+    tab, _ = fmt_table(fmt)
+    for name, c, m in tab:
+        got = np.array(rec[name]).astype(np.int64).tolist()
+        want = ((rec.array[c].astype(np.int64) & m) >> lsb_of(m)).tolist()
+        if got != want:
+            return f"{name} reads {got} while its bits say {want}"
+    return None
+
+
+def classify(fmt, n, op):
+    tab, _ = fmt_table(fmt)
+    by_name = {nm: (c, m) for nm, c, m in tab}
+    if op["op"] == "copy":
+        sn = len(bytes.fromhex(op["src"])) // _itemsize(op["sfmt"])
+        fam = "same-family" if (op["sfmt"] >= 6) == (fmt >= 6) else "cross-family"
+        ln = ("empty-source" if sn == 0 else "same-length" if sn == n else "one-point-source" if sn == 1
+              else "longer-source" if sn > n else "shorter-source")
+        return f"copy {fam} {ln}"
+    c, m = by_name[op["field"]]
+    maxv = m >> lsb_of(m)
+    _, vs = value_list(op["value"])
+    rng_ = "out-of-range" if any(v > maxv or v < 0 for v in vs) else "in-range"
+    if op["op"] == "seq":
+        ln = ("empty" if not vs else "grow" if len(vs) > n else "same" if len(vs) == n else "broadcast" if len(vs) == 1 else "shorter")
+        return f"seq {ln} {rng_}"
+    pos, chain = view_positions(op, n)
+    derived = "derived" if chain else "direct"
+    if chain and any(len(ix) == 1 for ix in chain):
+        derived += " one-point"
+    if resolve_key(op["key"], len(pos)) is None:
+        rng_ = rng_ + " bad-index"
+    return f"view {derived} {op['key']['k']} {rng_}"
+
+
+_ITEMSIZE = {}
+
+
+def _itemsize(fmt):
+    import laspy
+    if fmt not in _ITEMSIZE:
+        _ITEMSIZE[fmt] = laspy.PointFormat(fmt).dtype().itemsize
+    return _ITEMSIZE[fmt]
+
+
+# ---------------------------------------------------------------------------------------------------------------------
+# generator
+# ---------------------------------------------------------------------------------------------------------------------
+def gen_value(rng, count, maxv, bad, scalar):
+    """a JSON value descriptor: `count` values (or one scalar); bad = at least one value outside [0, maxv]"""
+    oob = [maxv + 1, -1, 255, -7, maxv + 17, 256, 257, 256 + maxv, -256, -255, 65536, 2 ** 32, maxv + 2]
+
+    def one(b):
+        return rng.choice(oob) if b else rng.choice([0, maxv, rng.randrange(maxv + 1), rng.randrange(maxv + 1)])
+    if scalar:
+        v = one(bad)
+        kinds = ["int", "np:int64"]
+        if 0 <= v <= 255:
+            kinds.append("np:uint8")
+        if -2 ** 15 <= v < 2 ** 15:
+            kinds.append("np:int16")
+        if maxv == 1 and v in (0, 1):
+            kinds.append("bool")
+        k = rng.choice(kinds)
+        if k == "int":
+            return {"t": "int", "v": v}
+        if k == "bool":
+            return {"t": "bool", "v": bool(v)}
+        return {"t": "np", "dtype": k[3:], "v": v}
+    vs = [one(False) for _ in range(count)]
+    if bad and count:
+        for i in rng.sample(range(count), rng.randrange(1, min(count, 2) + 1)):
+            vs[i] = one(True)
+    kinds = ["list", "tuple", "array:int64"]
+    if all(0 <= v <= 255 for v in vs):
+        kinds.append("array:uint8")
+    if all(-2 ** 15 <= v < 2 ** 15 for v in vs):
+        kinds.append("array:int16")
+    if all(-2 ** 31 <= v < 2 ** 31 for v in vs):
+        kinds.append("array:int32")
+    k = rng.choice(kinds)
+    if k in ("list", "tuple"):
+        return {"t": k, "v": vs}
+    return {"t": "array", "dtype": k[6:], "v": vs}
+
+
+def gen_slice(rng, L):
+    """a slice of a sequence of length L, aimed at one-element / whole / empty / strided selections"""
+    r = rng.random()
+    if L and r < 0.35:
+        a = rng.randrange(L)
+        return rng.choice([[a, a + 1, None], [a, a + 1, 1], [a - L, (a - L + 1) or None, None]])        # exactly one element
+    if r < 0.5:
+        return rng.choice([[None, None, None], [0, None, None], [None, L, 1]])
+    if r < 0.6:
+        return [None, None, -1]
+    if r < 0.65:
+        return rng.choice([[0, 0, None], [L, None, None]])
+    a, b = rng.randrange(-L - 1, L + 2), rng.randrange(-L - 1, L + 2)
+    return [a, b, rng.choice([None, 1, 2, 3, -1, -2])]
+
+
+def gen_key(rng, L, allow_bad_index):
+    r = rng.random()
+    if r < 0.22:
+        return {"k": "all"}
+    if r < 0.27:
+        return {"k": "ellipsis"}
+    if r < 0.45:
+        return {"k": "slice", "v": gen_slice(rng, L)}
+    if r < 0.6:
+        return {"k": "mask", "v": [rng.random() < 0.5 for _ in range(L)]}
+    if L == 0:
+        return {"k": "all"}
+    if allow_bad_index and rng.random() < 0.08:
+        bad = rng.choice([L, -L - 1, L + 5])
+        return rng.choice([{"k": "int", "v": bad}, {"k": "list", "v": [0, bad]}, {"k": "arr", "v": [bad]}])
+    if r < 0.8:
+        idx = [rng.randrange(-L, L) for _ in range(rng.randrange(1, 6))]
+        return {"k": rng.choice(["list", "arr"]), "v": idx}
+    return {"k": rng.choice(["int", "npint"]), "v": rng.randrange(-L, L)}
+
+
+def gen_view_op(rng, fmt, hostkind, n):
+    tab, _ = fmt_table(fmt)
+    name, c, m = rng.choice(tab)
+    maxv = m >> lsb_of(m)
+    paths = ["item", "attr"] + (["old", "old_attr"] if name in OLD_NAMES else [])
+    path = rng.choice(paths)
+    if hostkind == "las" and rng.random() < 0.5:
+        path = "points_" + path
+    op = {"op": "view", "field": name, "path": path, "chain": []}
+    L = n
+    if rng.random() < 0.2:
+        op["subrec"] = gen_slice(rng, L)
+        L = len(range(L)[slice(*op["subrec"])])
+        if not op["path"].startswith("points_") and hostkind == "las":
+            op["path"] = "points_" + op["path"]
+    depth = rng.choice([0, 0, 1, 1, 1, 2, 3])
+    for _ in range(depth):
+        s = gen_slice(rng, L)
+        op["chain"].append(s)
+        L = len(range(L)[slice(*s)])
+    key = gen_key(rng, L, True)
+    idx = resolve_key(key, L)
+    count = len(idx) if idx is not None else 1
+    bad = rng.random() < 0.2
+    scalar = key["k"] in ("int", "npint") or idx is None or rng.random() < 0.45
+    if not scalar and count == 0:
+        bad = False
+    if scalar and count == 0 and bad:
+        bad = False            # the value check on a selection addressing nothing: covered by oracle_special
+    if key["k"] == "ellipsis" and not scalar and count == 0:
+        scalar = True
+    op["key"] = key
+    op["value"] = gen_value(rng, count, maxv, bad, scalar)
+    return op
+
+
+def gen_seq_op(rng, fmt, hostkind, n):
+    tab, _ = fmt_table(fmt)
+    name, c, m = rng.choice(tab)
+    maxv = m >> lsb_of(m)
+    paths = ["setitem", "setattr", "names"] + (["old", "old_attr"] if name in OLD_NAMES else [])
+    path = rng.choice(paths)
+    if hostkind == "las" and rng.random() < 0.4:
+        path = "points_" + path
+    r = rng.random()
+    if r < 0.4:
+        count = n + rng.choice([1, 1, 2, 3, 5])          # the record grows
+    elif r < 0.75:
+        count = n
+    elif r < 0.85:
+        count = 1
+    elif r < 0.95 and n >= 3:
+        count = rng.randrange(2, n)                      # shorter: refused
+    else:
+        count = 0
+    if path.endswith("names") and count == 0:
+        path = path.replace("names", "setitem")
+    return {"op": "seq", "field": name, "path": path, "value": gen_value(rng, count, maxv, rng.random() < 0.2 and count > 0, False)}
+
+
+def gen_copy_op(rng, fmt, n):
+    r = rng.random()
+    same = [f for f in range(11) if (f >= 6) == (fmt >= 6)]
+    cross = [f for f in range(11) if (f >= 6) != (fmt >= 6)]
+    sfmt = rng.choice(same) if r < 0.65 else rng.choice(cross)
+    r = rng.random()
+    sn = n if r < 0.6 else n + rng.choice([1, 2, 4]) if r < 0.75 else 1 if r < 0.85 else rng.randrange(0, max(n, 1)) if r < 0.97 else 0
+    import laspy
+    dt = laspy.PointFormat(sfmt).dtype()
+    arr = rand_array(rng, dt, sn)
+    if sfmt >= 6 and fmt < 6 and rng.random() < 0.7:
+        arr["bit_fields"] &= 0x77                         # values that fit the narrower fields of formats 0-5
+        arr["classification"] &= 0x1F
+    return {"op": "copy", "sfmt": sfmt, "src": arr.tobytes().hex()}
+
+
+def gen_session(rng):
+    fmt = rng.randrange(11)
+    host = rng.choice(HOSTS)
+    n = rng.choice([0, 1, 1, 2, 3, 4, 5, 7, 8])
+    raw = rand_bytes(rng, n * _itemsize(fmt))
+    if rng.random() < 0.1:
+        raw = bytes(len(raw))
+    ops, cur = [], n
+    for _ in range(rng.choice([1, 2, 3, 4])):
+        r = rng.random()
+        if r < 0.5:
+            op = gen_view_op(rng, fmt, host, cur)
+        elif r < 0.78:
+            op = gen_seq_op(rng, fmt, host, cur)
+        else:
+            op = gen_copy_op(rng, fmt, cur)
+        ops.append(op)
+        # the length the record will have if the operation is accepted (the generator follows the property)
+        try:
+            st, _, cur2 = expect_op(fmt, bytes(cur * _itemsize(fmt)), op) if op["op"] != "view" else ("ok", None, cur)
+            cur = cur2
+        except Exception:
+            pass
+    return {"format": fmt, "host": host, "raw": raw.hex(), "ops": ops}
+
+
+def chunk_sessions(rng):
+    """the chunk-by-chunk update pattern: fill a sub-field through slices of its view (last chunk of one point), then
+    a preallocated record filled from several chunks with copy_fields_from"""
+    out = []
+    for fmt in range(11):
+        tab, _ = fmt_table(fmt)
+        for name, c, m in tab:
+            maxv = m >> lsb_of(m)
+            n, size = rng.choice([(7, 3), (5, 2), (4, 3), (1, 10), (3, 1)])
+            ops = []
+            for a in range(0, n, size):
+                cnt = min(size, n - a)
+                ops.append({"op": "view", "field": name, "path": "item", "chain": [[a, a + size, None]], "key": {"k": "all"},
+                            "value": gen_value(rng, cnt, maxv, False, False)})
+            out.append({"format": fmt, "host": rng.choice(HOSTS), "raw": rand_bytes(rng, n * _itemsize(fmt)).hex(), "ops": ops})
+        n = rng.choice([1, 3, 4])
+        import laspy
+        ops = []
+        for _ in range(3):
+            sfmt = rng.choice([f for f in range(11) if (f >= 6) == (fmt >= 6)])
+            ops.append({"op": "copy", "sfmt": sfmt, "src": rand_array(rng, laspy.PointFormat(sfmt).dtype(), n).tobytes().hex()})
+        out.append({"format": fmt, "host": rng.choice(HOSTS), "raw": bytes(n * _itemsize(fmt)).hex(), "ops": ops})
+    return out
+
+
+# ---------------------------------------------------------------------------------------------------------------------
+# running a session: implementation, property, model command
+# ---------------------------------------------------------------------------------------------------------------------
+def cols_tok(fmt, raw):
+    _, cols = unpack_state(fmt, raw)
+    return "|".join(f"{c}={common.hexb(bytes(bs))}" for c, bs in cols.items())
+
+
+def model_op(fmt, n, op):
+    """the operation in the model driver's syntax (positions resolved by the harness, see ASSUMPTIONS)"""
+    if op["op"] == "seq":
+        _, vs = value_list(op["value"])
+        return f"S!{op['field']}!{common.zl(vs)}"
+    if op["op"] == "copy":
+        import laspy
+        sfmt = op["sfmt"]
+        raw = bytes.fromhex(op["src"])
+        sarr, _ = unpack_state(sfmt, raw)
+        stab, _ = fmt_table(sfmt)
+        dtab, _ = fmt_table(fmt)
+        snames = {nm for nm, _, _ in stab}
+        plain = [f"{nm}={common.zl(int(x) for x in sarr[nm])}" for nm, _, _ in dtab if nm not in snames and nm in sarr.dtype.names]
+        return f"C!{sfmt}!{cols_tok(sfmt, raw)}!{'|'.join(plain) or '-'}"
+    pos, chain = view_positions(op, n)
+    L = len(pos)
+    scalar, vs = value_list(op["value"])
+    idx = resolve_key(op["key"], L)
+    if idx is None:                      # an index outside the view: the model refuses the position L
+        k = op["key"]
+        idx = [(i % L if -L <= i < L else L) for i in (k["v"] if k["k"] in ("list", "arr") else [k["v"]])]
+    if scalar or len(vs) == 1:
+        pairs = [(i, vs[0]) for i in idx]
+        if not pairs and vs:             # nothing addressed: only the range check of the value remains (never out of range here)
+            pairs = []
+    else:
+        pairs = list(zip(idx, vs))
+    ch = "/".join((",".join(map(str, ix)) or "e") for ix in chain) or "-"
+    sel = ",".join(f"{i}:{v}" for i, v in pairs) or "-"
+    return f"V!{op['field']}!{ch}!{sel}"
+
+
+def run_session(sess):
+    """implementation side: [(raw_before, op, status, raw_after, reads_problem)]"""
+    host = Host(sess["host"], sess["format"], bytes.fromhex(sess["raw"]))
+    steps = []
+    for op in sess["ops"]:
+        before = host.raw()
+        status = apply_op(host, op)
+        after = host.raw()
+        steps.append((before, op, status, after, check_reads(host, sess["format"])))
+    return steps
+
+
+def session_failures(sess, steps):
+    """the property on every step of a session; a failing step is reduced to one operation on the state before it
+    when that still fails"""
+    out = []
+    fmt = sess["format"]
+    for i, (before, op, status, after, reads) in enumerate(steps):
+        why = check_op(fmt, before, op, status, after) or reads
+        if not why:
+            continue
+        kind = classify(fmt, len(before) // _itemsize(fmt), op)
+        single = {"format": fmt, "host": sess["host"], "raw": before.hex(), "ops": [op]}
+        st1 = run_session(single)
+        why1 = check_op(fmt, st1[0][0], op, st1[0][2], st1[0][3]) or st1[0][4]
+        if why1:
+            out.append({"kind": kind, "input": single, "observed": why1})
+        else:
+            out.append({"kind": kind + " (history)", "input": {**sess, "ops": sess["ops"][:i + 1]}, "observed": f"step {i}: {why}"})
+        break
+    return out
+
+
+_SESSION_FAILS = []
+
+
+def correspond_sessions(ctx):
+    sessions = chunk_sessions(ctx.rng) + [gen_session(ctx.rng) for _ in range(ctx.n(1500, 20000))]
+    cmds, runs = [], []
+    for sess in sessions:
+        fmt = sess["format"]
+        steps = run_session(sess)
+        _SESSION_FAILS.extend(session_failures(sess, steps))
+        mops = []
+        for before, op, status, after, _ in steps:
+            n = len(before) // _itemsize(fmt)
+            mops.append(model_op(fmt, n, op))
+            ctx.count("hist:" + classify(fmt, n, op).replace(" in-range", "").replace(" out-of-range", " oob"))
+        ctx.count("host:" + sess["host"])
+        cmds.append(f"sf_hist {fmt} {cols_tok(fmt, bytes.fromhex(sess['raw']))} {';'.join(mops)}")
+        runs.append((sess, steps))
+    outs = common.run_model(cmds, name=DRIVER)
+    dis = []
+    for (sess, steps), cmd, mo in zip(runs, cmds, outs):
+        fmt = sess["format"]
+        ctx.traces += len(steps)
+        ctx.case(cmd, nontrivial=True, sample={"session": {**sess, "raw": sess["raw"][:32] + "..."}, "model": mo[:80] + "..."} if len(ctx.samples) < 6 and len(sess["ops"]) > 1 else None)
+        msteps = mo.split(";")
+        if len(msteps) != len(steps):
+            dis.append({"kind": "history driver", "input": {"cmd": cmd[:300]}, "model": mo[:200], "impl": f"{len(steps)} steps"})
+            continue
+        for i, ((before, op, status, after, _), ms) in enumerate(zip(steps, msteps)):
+            mstatus, mcols, mreads = ms.split("@")
+            host_reads = None
+            icols = cols_tok(fmt, after)
+            ok = (mstatus == status) and (mcols == icols)
+            if ok:
+                # the values the model reads per sub-field (rec_read of the theorems) = what the bytes of the implementation say
+                _, cols = unpack_state(fmt, after)
+                tab, _ = fmt_table(fmt)
+                want = "|".join(f"{nm}={common.zl((b & m) >> lsb_of(m) for b in cols[c])}" for nm, c, m in tab)
+                ok = want == mreads
+            if not ok:
+                n = len(before) // _itemsize(fmt)
+                dis.append({"kind": "history " + classify(fmt, n, op), "input": {"session": {**sess, "ops": sess["ops"][:i + 1]}, "step": i},
+                            "model": (mstatus + " " + mcols)[:200], "impl": (status + " " + icols)[:200]})
+                break
     return dis
 
 
@@ -213,6 +888,20 @@ def oracle_special(rng):
         rec[name][:] = rec[name][::-1]
         if not np.array_equal(np.array(rec[name]), vals[::-1]):
             out.append((f"reversed self-assignment {name}", {"format": fmt, "field": name}, f"{name}[:] = {name}[::-1] gave {np.array(rec[name]).tolist()} expected {vals[::-1].tolist()}"))
+        # overlapping live views: shifted by one point, and a live view of a sibling sharing the byte as the value
+        rec = fresh_record(fmt, rng, n); vals = np.array(rec[name]).copy(); raw0 = rec.array.copy()
+        rec[name][1:] = rec[name][:-1]
+        if np.array(rec[name]).tolist() != [vals[0]] + vals[:-1].tolist() or not all(
+                raw0[f].tobytes() == rec.array[f].tobytes() for f in raw0.dtype.names if f != composed) or np.any((raw0[composed] ^ rec.array[composed]) & ~np.uint8(m)):
+            out.append((f"shifted self-assignment {name}", {"format": fmt, "field": name}, f"{name}[1:] = {name}[:-1] gave {np.array(rec[name]).tolist()} from {vals.tolist()}"))
+        for sfmt_, sname, scomp, sm in sub_fields():
+            if sfmt_ == fmt and scomp == composed and sname != name and (sm >> ((sm & -sm).bit_length() - 1)) <= maxv:
+                rec = fresh_record(fmt, rng, n); svals = np.array(rec[sname]).copy()
+                rec[name][:] = rec[sname]
+                if np.array(rec[name]).tolist() != svals.tolist() or np.array(rec[sname]).tolist() != svals.tolist():
+                    out.append((f"sibling-view assignment {name}", {"format": fmt, "field": name, "value_view": sname},
+                                f"{name}[:] = {sname} (live view of the same byte) gave {np.array(rec[name]).tolist()}, {sname} = {svals.tolist()}"))
+                break
         rec = fresh_record(fmt, rng, n); vals = np.array(rec[name]).copy()
         setattr(rec, name, rec[name])
         if not np.array_equal(np.array(rec[name]), vals):
@@ -252,6 +941,25 @@ def oracle_special(rng):
             if not np.array_equal(np.array(rec[on]), ov):
                 out.append((f"sibling {on} changed by {name}", {"format": fmt, "field": name, "sibling": on}, f"assigning {name} changed the values of {on}"))
                 break
+        # values that cannot be broadcast onto the selection: refused (ValueError), nothing modified - in particular the
+        # field is not left cleared; an out-of-range value among them is still an OverflowError
+        for key, cnt, kd in ((slice(0, 4), 3, "slice of 4, 3 values"), (slice(None), n + 2, "whole view, n+2 values"),
+                             (np.arange(n) % 2 == 0, 2, "mask of 5, 2 values"), ([0, 1, 2], 2, "index list of 3, 2 values")):
+            for badv in (False, True):
+                rec = fresh_record(fmt, rng, n); before = rec.array.tobytes()
+                vals_ = [rng.randrange(maxv + 1) for _ in range(cnt)]
+                if badv:
+                    vals_[-1] = maxv + 1
+                try:
+                    rec[name][key] = vals_
+                    out.append((f"shape mismatch {name}", {"format": fmt, "field": name, "key": kd, "values": vals_}, "accepted"))
+                except (OverflowError if badv else ValueError):
+                    pass
+                except Exception as ex:
+                    out.append((f"shape mismatch {name}", {"format": fmt, "field": name, "key": kd, "values": vals_}, f"raised {type(ex).__name__}"))
+                if rec.array.tobytes() != before:
+                    out.append((f"shape mismatch {name}", {"format": fmt, "field": name, "key": kd, "values": vals_},
+                                f"{name}[{kd}] = {vals_} was refused but the record was modified"))
         # out-of-range value with a selection that addresses nothing
         for key, kd in ((np.zeros(n, dtype=bool), "mask matching nothing"), (slice(0, 0), "empty slice")):
             for v in (maxv + 1, -1):
@@ -268,8 +976,21 @@ def oracle_special(rng):
     return out
 
 
+def search_sessions(ctx):
+    """the property on fresh sessions (independent of the correspondence run: also used when the model could not be built)"""
+    out = []
+    for sess in chunk_sessions(ctx.rng) + [gen_session(ctx.rng) for _ in range(ctx.n(600, 6000))]:
+        out.extend(session_failures(sess, run_session(sess)))
+    return out
+
+
 def search(ctx, seeds):
     failing, seen = [], set()
+    for f in _SESSION_FAILS + search_sessions(ctx):
+        if f["kind"] not in seen:
+            seen.add(f["kind"])
+            failing.append(f)
+    failing = failing[:6]
     for f in _ARR_FAILS:
         if f["kind"] not in seen:
             seen.add(f["kind"])
@@ -287,11 +1008,15 @@ def search(ctx, seeds):
                 if kind not in seen:
                     seen.add(kind)
                     failing.append({"kind": kind, "input": {"format": fmt, "field": name, "value": v}, "observed": why})
-    return failing[:8]
+    return failing[:10]
 
 
 def replay(ctx, data):
     inp = data.get("failing_input", {}).get("input")
+    if inp and "ops" in inp:
+        fails = session_failures(inp, run_session(inp))
+        print("REPRODUCED: " + fails[0]["kind"] + ": " + fails[0]["observed"] if fails else "not reproduced")
+        return 1 if fails else 0
     if not inp or "field" not in inp:
         print("nothing to replay")
         return 0
